@@ -284,3 +284,29 @@ CHECKS["C11"] = NS(
     ASSUMPTIONS=["float32 modules only (float64 oracle)", "Linear inputs of rank >= 2 (1-D activations are outside the property's domain)"],
     PLAN={"quick": [("grad", 12, {"n": 250}), ("stale", 4, {"n": 150})], "thorough": [("grad", 12, {"n": 10000}), ("stale", 4, {"n": 5000})]},
 )
+
+CHECKS["C12"] = NS(
+    MODULE="c12_calib",
+    LEVEL="exploration",
+    LEVEL_TEXT=(
+        "Model-based testing of calibration histories: Hypothesis draws 1-3 successive Calibration contexts (momentum from a list or "
+        "drawn in [0,1), streamlining on/off), each with 1-4 batches of magnitudes 10^-3..10^3 (plus a directed batch whose absmax/qmax "
+        "is exactly 1.0 and repeated batches), over eight model shapes (single Linear/Conv2d/LayerNorm, chains, a lone module fed "
+        "quantized tensors) and three activation qtypes. An independent reference model (first batch initialises, then "
+        "m*old+(1-m)*new with the context's momentum; quantized inputs are adopted; ranges recomputed in float64 from inputs observed "
+        "by harness-owned per-module hooks and from the float functional) is compared with every module's scales after every batch. Exploration."
+    ),
+    LEVEL_NOTE="float64 reference model with an explicitly propagated tolerance (8u per update, accumulation bound of the raw output / qmax); per-module pre-hooks only observe inputs",
+    TECHNIQUE=PBT + "stateful generation of calibration histories against a reference model of the moving average",
+    RULE=(
+        "Hypothesis histories: model x activation qtype x weight qtype x dtype x contexts[(momentum, streamline, batches[(magnitude, kind)])]. "
+        "Non-trivial: >= 2 batches whose magnitudes differ by > 2x under a momentum != 0.9, or a chained model with >= 2 batches, or >= 2 contexts. "
+        "Distinct by the whole history."
+    ),
+    ASSUMPTIONS=[
+        "exactly-zero batches are not generated here (a null range carries no information; C16 covers them)",
+        "with streamlining the law is asserted while a module's activations are enabled; a module switched off must keep its scales",
+        "all modules of a model share one activation qtype (what quantize() produces), so chained quantized inputs are adopted, not re-quantized",
+    ],
+    PLAN={"quick": [("ema", 16, {"n": 120})], "thorough": [("ema", 16, {"n": 5000})]},
+)
